@@ -1350,7 +1350,7 @@ class TmUnit:
         text = tr.translate()
         notes = {k: v for k, v in self.prepared[key][1].items() if v}
         notes["kind"] = self.sigs[key]["kind"]
-        ops = list(tr.partial.values())
+        ops = sorted(tr.partial.values())        # a multiset: re-ordering statements is harmless
         notes["partial_ops"] = ops
         text += f"\ndef {name}_partial_ops : List String := [" + ", ".join('"' + o + '"' for o in ops) + "]"
         if tr.notes:
